@@ -11,6 +11,7 @@
 From Coq Require Import List Bool.
 Import ListNotations.
 From Zap Require Import Base.Wire C09.Sem C09.Deadlock C09.Facts C09.Orig C09.Model C09.Proofs Gen.AccessFacts.
+From Zap Require C09.Release Gen.ReleaseFacts.
 
 (* soundness of the decidable discipline, for ANY table of summaries: if every field is
    (a) never written, or (e) only accessed atomically, or (b) accessed only under one
@@ -64,6 +65,50 @@ Theorem C09_facts_refuted :
 Proof. exact facts_orig_refuted. Qed.
 Print Assumptions C09_facts_refuted.
 
+(* ---- recycled objects (sync.Pool): C09/Release.v, Gen/ReleaseFacts.v ----
+
+   Per function and recycled variable v, the extracted skeleton [body : stm] carries the events
+   on v (handed back / used / rebound) with branches, loops, returns and deferred code;
+   [fn_trace body tr]: tr is the event sequence of some path through the function, deferred code
+   included; [good false tr]: v is never handed back twice and never touched after it was handed
+   back.  The decidable check covers every path: *)
+Theorem C09_release_sound : forall body, Release.release_ok body = true ->
+  forall tr, Release.fn_trace body tr -> Release.good false tr = true.
+Proof. exact Release.release_sound. Qed.
+Print Assumptions C09_release_sound.
+
+(* the skeletons extracted from the repository's working tree pass the check ... *)
+Theorem C09_release_facts : Release.release_all_ok ReleaseFacts.release_units = true.
+Proof. exact release_facts_thm. Qed.
+Print Assumptions C09_release_facts.
+
+(* ... hence on every path through every function of zap that hands a recycled object back *)
+Theorem C09_release_paths : forall name body, In (name, body) ReleaseFacts.release_units ->
+  forall tr, Release.fn_trace body tr -> Release.good false tr = true.
+Proof. exact release_paths_thm. Qed.
+Print Assumptions C09_release_paths.
+
+(* what the discipline buys: a pool (free copies per object, Get of a free copy or of a new
+   object, Put by anybody of anything, copies dropped at any time), any number of goroutines, any
+   interleaving [h].  If every goroutine keeps the discipline on every object -- uses and puts
+   only what it got and has not put back since -- then no object is ever held by two goroutines,
+   and every use of an object happens while the user is its only holder *)
+Theorem C09_pool_exclusive : forall h s, Release.pruns h s -> Release.disciplined h ->
+  (forall t1 t2 x, Release.holds s t1 x = true -> Release.holds s t2 x = true -> t1 = t2) /\
+  (forall h1 t x h2, h = h1 ++ Release.AUse t x :: h2 -> forall s1, Release.pruns h1 s1 ->
+     Release.holds s1 t x = true /\ forall t', Release.holds s1 t' x = true -> t' = t).
+Proof. exact Release.pool_exclusive. Qed.
+Print Assumptions C09_pool_exclusive.
+
+(* ... and what one double Put costs (the shape of seed c09d): goroutine 0 gets object 7 and puts
+   it twice; goroutines 1 and 2, each keeping the discipline, then both hold it *)
+Theorem C09_double_put_shares : exists s, Release.pruns Release.double_put_run s /\
+  Release.holds s 1 7 = true /\ Release.holds s 2 7 = true /\
+  Release.disciplined [Release.AGet 1 7; Release.AGet 2 7] /\
+  Release.good true (Release.proj 0 7 Release.double_put_run) = false.
+Proof. exact Release.double_put_shares. Qed.
+Print Assumptions C09_double_put_shares.
+
 (* the oracle run by the driver is the proved property: on every well-formed case the
    model reports no race, no lock deadlock, no panic *)
 Theorem C09_wire : forall i, wf i = true -> spec i (model i) = true.
@@ -80,6 +125,15 @@ Proof.
   intros k [<-|[<-|[<-|[]]]]; eexists; (split; [|reflexivity]); intros c Hc; cbn in Hc;
     repeat (destruct Hc as [<-|Hc]; [vm_compute; auto 10|]); destruct Hc.
 Qed.
+
+Example C09_release_table_nonempty : 20 <= List.length ReleaseFacts.release_units.
+Proof. exact release_units_nonempty. Qed.
+
+(* the release check can say no, and what it rejects is a real path: acquire, defer the release,
+   release by hand on an early return -- the deferred release then hands the object back again *)
+Example C09_double_release_rejected : Release.release_ok c09d_shape = false /\
+  exists tr, Release.fn_trace c09d_shape tr /\ Release.good false tr = false.
+Proof. exact c09d_shape_rejected. Qed.
 
 (* the checkers can say no: a field written under the lock but read without it; the
    shape of #1428 (waiting for the flush loop while holding the mutex it needs) *)
